@@ -1177,6 +1177,15 @@ class Interp:
                 self.globals[n.name] = Func(self, n, [], n.name)
             elif isinstance(n, ast.ClassDef) and (only is None or n.name in only):
                 self.globals[n.name] = ClassVal(self, n, [])
+            elif isinstance(n, (ast.Assign, ast.AnnAssign)) and only is None:
+                # module-level constants (pure literals / arithmetic on literals only)
+                from sa.astx import NotConst, const_eval
+                tg = n.targets[0] if isinstance(n, ast.Assign) and len(n.targets) == 1 else getattr(n, "target", None)
+                if isinstance(tg, ast.Name) and n.value is not None:
+                    try:
+                        self.globals[tg.id] = const_eval(n.value, {})
+                    except NotConst:
+                        pass
 
     def func(self, node, scopes=None):
         return Func(self, node, scopes or [])
